@@ -407,3 +407,16 @@ Qed.
 
 Lemma ku_seq_replay_eq ks ts ok ks' iss : ku_seq ks ts = (ok, ks', iss) -> ku_replay ks iss = ks'.
 Proof. intros H. pose proof (ku_seq_replay ks ts) as R. now rewrite H in R. Qed.
+
+Lemma ku_seq_incl ts : forall ks ok ks' iss, ku_seq ks ts = (ok, ks', iss) -> incl (ks_tab ks') (ks_tab ks).
+Proof.
+  induction ts as [|t r IH]; intros ks ok ks' iss; cbn [ku_seq].
+  - intros H. injection H as _ <- _. apply incl_refl.
+  - rewrite kumount_spec. destruct (top_at (ks_tab ks) t) as [k|].
+    2:{ intros H. injection H as _ <- _. apply incl_refl. }
+    destruct (no_children (ks_tab ks) k).
+    2:{ intros H. injection H as _ <- _. apply incl_refl. }
+    destruct (ku_seq _ r) as [[ok1 k2] iss1] eqn:E. intros H. injection H as _ <- _.
+    eapply incl_tran; [eapply IH; exact E|]. cbn [ks_tab]. unfold remove_id. intros x Hx.
+    now apply filter_In in Hx.
+Qed.
